@@ -22,6 +22,8 @@ import (
 	"strings"
 
 	"github.com/johnkerl/miller/v6/pkg/cli"
+	"github.com/johnkerl/miller/v6/pkg/colorizer"
+	"github.com/johnkerl/miller/v6/pkg/mlrval"
 
 	"verif/harness/vf"
 )
@@ -34,27 +36,34 @@ type corpusInput struct {
 }
 
 func corpus() []corpusInput {
+	// Every text carries, as far as its format can spell them, the same two
+	// records: values with a space, a double quote, a backslash and an empty
+	// value (these separate csv/csvlite, tsv/tsvlite, dkvp/dkvpx, pprint/nidx
+	// output), a dotted key (auto-unflatten), plus format-specific features.
 	return []corpusInput{
-		{"csv", "a,b,c.d\n1,x y,\n3,\"p,q\",5\n"},
-		{"tsv", "a\tb\tc.d\n1\tx y\t\n3\tp\\tq\t5\n"},
-		{"json", `[{"a":1,"b":"x y","c":{"d":""}},{"a":3,"b":"p,q","c":{"d":[5,6]}}]` + "\n"},
-		{"jsonl", `{"a":1,"b":"x y","c":{"d":""}}` + "\n" + `{"a":3,"b":"p,q","c":{"d":[5,6]}}` + "\n"},
-		{"dkvp", "a=1,b=x y,c.d=\na=3,b=p;q,c.d=5\n"},
+		{"csv", "a,b,c.d\n1,\"x \"\"y\",\n3,\"p,\\q\",5\n"},
+		{"tsv", "a\tb\tc.d\n1\tx \"y\t\n3\tp\\tq\\\\r\t5\n"},
+		{"json", `[{"a":1,"b":"x \"y","c":{"d":""}},{"a":3,"b":"p,\\q","c":{"d":[5,6]}}]` + "\n"},
+		{"jsonl", `{"a":1,"b":"x \"y","c":{"d":""}}` + "\n" + `{"a":3,"b":"p,\\q","c":{"d":[5,6]}}` + "\n"},
+		{"dkvp", "a=1,b=x \"y,c.d=\na=3,b=p;\\q,c.d=5\n"},
 		{"dkvp-hetero", "a=1,b=2\nc=3\n"},
 		{"dkvp-keyless", "a=10,b=20,30,d=40,50\n"},
-		{"nidx-spaces", "1 xy  7\n3 pq 5\n"},
-		{"nidx-tabs", "1\txy\t\t7\n3\tp q\t5\n"},
-		{"xtab", "a   1\nb   x y\nc.d 7\n\na   3\nb   pq\nc.d 5\n"},
-		{"pprint", "a b  c.d\n1 xy -\n3 pq 5\n"},
-		{"pprint-barred", "+---+----+\n| a | b  |\n+---+----+\n| 1 | xy |\n| 3 | pq |\n+---+----+\n"},
-		{"markdown", "| a | b | c.d |\n| --- | --- | --- |\n| 1 | x y |  |\n| 3 | pq | 5 |\n"},
-		{"yaml", "- a: 1\n  b: x y\n  c:\n    d: \"\"\n- a: 3\n  b: pq\n  c:\n    d:\n    - 5\n    - 6\n"},
+		{"nidx-spaces", "1 x\"y  7\n3 p\\q 5\n"},
+		{"nidx-tabs", "1\tx\"y\t\t7\n3\tp \\q\t5\n"},
+		{"xtab", "a   1\nb   x \"y\nc.d 7\n\na   3\nb   p\\q\nc.d 5\n"},
+		{"pprint", "a b   c.d\n1 x\"y -\n3 p\\q 5\n"},
+		{"pprint-hetero", "a b\n1 2\n\nc\n3\n"},
+		{"pprint-barred", "+---+-----+\n| a | b   |\n+---+-----+\n| 1 | x\"y |\n| 3 | p\\q |\n+---+-----+\n"},
+		{"markdown", "| a | b | c.d |\n| --- | --- | --- |\n| 1 | x \"y |  |\n| 3 | p\\q | 5 |\n"},
+		{"markdown-hetero", "| a | b |\n| --- | --- |\n| 1 | 2 |\n\n| c |\n| --- |\n| 3 |\n"},
+		{"yaml", "- a: 1\n  b: x \"y\n  c:\n    d: \"\"\n- a: 3\n  b: p,\\q\n  c:\n    d:\n    - 5\n    - 6\n"},
 		{"csvlite-hetero", "a,b\n1,2\n\nc\n3\n"},
-		{"usv", "a\xe2\x90\x9fb\xe2\x90\x9e1\xe2\x90\x9f2\xe2\x90\x9e"},
-		{"asv", "a\x1fb\x1e1\x1f2\x1e"},
-		{"dcf", "Package: p\nDepends: x, y\n more\n\nPackage: q\n"},
-		{"recutils", "# note\na: 1\nb: x\n+ y\n\na: 3\n"},
-		{"dkvpx", "\"x,y\"=\"a,b\",z=3\n"},
+		{"tsvlite-hetero", "a\tb\n1\tx\"y\n\nc\np\\q\n"},
+		{"usv", "a\xe2\x90\x9fb\xe2\x90\x9e1\xe2\x90\x9fx\"y\xe2\x90\x9e3\xe2\x90\x9fp\\q\xe2\x90\x9e\xe2\x90\x9ec\xe2\x90\x9e5\xe2\x90\x9e"},
+		{"asv", "a\x1fb\x1e1\x1fx\"y\x1e3\x1fp\\q\x1e\x1ec\x1e5\x1e"},
+		{"dcf", "Package: p\nDepends: x, y\n more\nb: x \"y\n\nPackage: q\nb: p\\q\n"},
+		{"recutils", "a: 1\nb: x \"y\n+ z\n\na: 3\nb: p\\q\nc: 5\n"},
+		{"dkvpx", "\"x,y\"=\"a,\"\"b\",z=3\nz=p\\q\n"},
 		{"semicolon-csv", "a;b;c\n1;2;3\n"},
 		{"semicolon-dkvp", "a:1;b:2\na:3;b:4\n"},
 	}
@@ -191,15 +200,15 @@ func unbackslash(s string) (string, bool) {
 // ---------------------------------------------------------------- cases
 
 type flagCase struct {
-	kind    string // guard | law | semantic
-	class   string // cause label used in violation groups and evidence
-	id      string
-	lhs     []string
-	rhs     []string
-	mlrrc   *string  // LHS runs with MLRRC pointing at a file with this content
-	ctxs    [][2][]string // (prefix, suffix) flag contexts; nil = plain only
-	inputs  []corpusInput // nil = whole corpus
-	why     string
+	kind     string // guard | law | semantic
+	class    string // cause label used in violation groups and evidence
+	id       string
+	lhs      []string
+	rhs      []string
+	mlrrc    *string       // LHS runs with MLRRC pointing at a file with this content
+	ctxs     [][2][]string // (prefix, suffix) flag contexts; nil = plain only
+	inputs   []corpusInput // nil = whole corpus
+	why      string
 	rejectOK bool // LHS may be rejected loudly (undocumented -i/-o/--io name): counted, not a violation
 	// semantic
 	semArgs  []string
@@ -214,9 +223,26 @@ type flagUniverse struct {
 	docs      *docFacts
 	notes     []string // unclassified / skipped, for evidence
 	dups      []string
+	arity     map[string]bool
+	inScope   map[string]bool // spellings of the table that some case exercises directly
 }
 
 func (u *flagUniverse) has(s string) bool { _, ok := u.spellings[s]; return ok }
+
+// takesArg: the table's own arity metadata (Flag.arg) is missing for some flags
+// (--gen-field-name and friends), so arity is observed: `mlr <flag>` with
+// nothing after it is refused with "missing argument" exactly by the flags that
+// consume a following argument.
+func (u *flagUniverse) takesArg(s string) bool {
+	if v, ok := u.arity[s]; ok {
+		return v
+	}
+	empty := ""
+	r := vf.RunMlr([]string{s}, vf.MlrOpts{Stdin: &empty})
+	v := r.Exit != 0 && strings.Contains(r.Stderr+r.Err, "missing argument")
+	u.arity[s] = v
+	return v
+}
 
 func (u *flagUniverse) entry(s string) *cli.VerifC02Flag {
 	if i, ok := u.spellings[s]; ok {
@@ -226,7 +252,7 @@ func (u *flagUniverse) entry(s string) *cli.VerifC02Flag {
 }
 
 func loadUniverse() *flagUniverse {
-	u := &flagUniverse{table: cli.VerifC02FlagTable(), spellings: map[string]int{}, docs: readDocs()}
+	u := &flagUniverse{table: cli.VerifC02FlagTable(), spellings: map[string]int{}, docs: readDocs(), arity: map[string]bool{}}
 	for i, f := range u.table {
 		for _, s := range append([]string{f.Name}, f.AltNames...) {
 			if j, ok := u.spellings[s]; ok {
@@ -281,8 +307,7 @@ var fmtCtx = [][2][]string{
 	{{"--icsv", "--ojson"}, nil},
 }
 
-func buildCases(u *flagUniverse, quick bool) []flagCase {
-	var C []flagCase
+func buildCases(u *flagUniverse, quick bool) (C []flagCase) {
 	add := func(c flagCase) { C = append(C, c) }
 	corp := corpus()
 	_ = corp
@@ -302,11 +327,45 @@ func buildCases(u *flagUniverse, quick bool) []flagCase {
 	}
 	inChoices = append(inChoices, []string{"-i", "dkvpx"}, []string{"--inidx", "--ifs", "tab"}, []string{"--inidx", "--ifs", "space", "--repifs"}, []string{"--ipprint", "--barred-input"})
 	outChoices = append(outChoices, []string{"-o", "dkvpx"}, []string{"--onidx", "--ofs", "tab"}, []string{"--opprint", "--barred"})
+	guardAt := len(C)
 	for _, ic := range inChoices {
+		if ic[0] == "--igen" {
+			continue // ignores its input: no corpus can tell its output choices apart beyond one column of integers
+		}
 		for _, oc := range outChoices {
 			add(flagCase{kind: "guard", class: "guard", id: strings.Join(ic, " ") + " | " + strings.Join(oc, " "), lhs: cat(ic, oc)})
 		}
 	}
+	guardEnd := len(C)
+	defer func() {
+		// a guard configuration is a TARGET when it is the expansion of some spelling under
+		// test (defaults are DKVP); only targets must be told apart from every other configuration
+		norm := func(args []string) string {
+			x := strings.Join(args, " ")
+			if !strings.Contains(x, "-i") {
+				x = "--idkvp " + x
+			}
+			if !strings.Contains(" "+x, " --o") && !strings.Contains(" "+x, " -o ") {
+				x = x + " --odkvp"
+			}
+			return strings.TrimSpace(x)
+		}
+		targets := map[string]bool{
+			"--inidx --ifs space --repifs --onidx": true, // -p
+			"--inidx --ifs tab --onidx --ofs tab":  true, // -T
+		}
+		for _, c := range C[guardEnd:] {
+			switch c.class {
+			case "saver", "both", "io-form":
+				targets[norm(c.rhs)] = true
+			}
+		}
+		for i := guardAt; i < guardEnd; i++ {
+			if targets[strings.Join(C[i].lhs, " ")] {
+				C[i].class = "guard-target"
+			}
+		}
+	}()
 
 	// ---- every spelling of the table
 	inScope := map[string]bool{}
@@ -492,7 +551,7 @@ func buildCases(u *flagUniverse, quick bool) []flagCase {
 				}
 				args = append(args, "--idkvp", "--ojson", "cat")
 				add(flagCase{kind: "semantic", class: "alias-meaning", id: flag + " " + n, semArgs: args, semInput: dk, semJSON: true,
-					semWant: `{"a":"1","b":"2"}` + "\n" + `{"a":"3","b":"4"}`, why: fmt.Sprintf("documented alias %s = %q used as DKVP %s", n, docv, strings.ToUpper(flag[2:]))})
+					semWant: `{"a":"1","b":"2"} / {"a":"3","b":"4"}`, why: fmt.Sprintf("documented alias %s = %q used as DKVP %s", n, docv, strings.ToUpper(flag[2:]))})
 			case "--ofs", "--ops", "--ors":
 				args := []string{flag, n, "--ijson", "--odkvp", "cat"}
 				ofs, ops, ors := ",", "=", "\n"
@@ -541,6 +600,10 @@ func buildCases(u *flagUniverse, quick bool) []flagCase {
 			continue
 		}
 		if e.Section == "File-format flags" || e.Section == "Format-conversion keystroke-saver flags" {
+			if u.takesArg(s) {
+				u.notes = append(u.notes, "flag consumes an argument although the table declares none (not run as a .mlrrc line): "+s)
+				continue
+			}
 			rcSpellings = append(rcSpellings, s)
 		}
 	}
@@ -552,7 +615,7 @@ func buildCases(u *flagUniverse, quick bool) []flagCase {
 		}
 	}
 	// (b) flags with arguments
-	for _, l := range [][]string{{"--ifs", "semicolon"}, {"--ifs", ";"}, {"--ofs", "tab"}, {"--fs", "pipe"}, {"--ps", "colon"}, {"--ips", ":"}, {"--ors", "crlf"}, {"--io", "json"}, {"-i", "csv"}, {"-o", "json"}, {"-o", "pprint"}, {"--flatsep", ":"}, {"--ofmt", "%.3f"}, {"--records-per-batch", "1"}} {
+	for _, l := range [][]string{{"--ifs", "semicolon"}, {"--ifs", ";"}, {"--ofs", "tab"}, {"--fs", "pipe"}, {"--ps", "colon"}, {"--ips", ":"}, {"--ors", "crlf"}, {"--io", "json"}, {"-i", "csv"}, {"-o", "json"}, {"-o", "pprint"}, {"--flatsep", ":"}, {"--ofmt", "%.3f"}, {"--nr-progress-mod", "1000"}} {
 		line := strings.Join(l, " ")
 		rc("mlrrc-arg", line, line+"\n", nil, l, "a .mlrrc line is the flag with its argument")
 		rc("mlrrc-arg", line+" +cmdline", line+"\n", []string{"--icsv", "--ojson"}, cat(l, []string{"--icsv", "--ojson"}), ".mlrrc first, then the command line")
@@ -619,14 +682,28 @@ func buildCases(u *flagUniverse, quick bool) []flagCase {
 		}
 	}
 
-	// ---- bookkeeping: what is out of scope
-	for _, f := range u.table {
-		for _, s := range append([]string{f.Name}, f.AltNames...) {
-			if !inScope[s] {
-				_ = s
+	// ---- documented examples of format-scoped flags (reference-main-flag-list.md)
+	if u.has("--incr-key") {
+		// "`a=10,b=20,30,d=40,50` is ingested as `$a=10,$b=20,$3=30,$d=40,$5=50`. With this option ... `$a=10,$b=20,$1=30,$d=40,$2=50`"
+		add(flagCase{kind: "semantic", class: "doc-example", id: "keyless-dkvp default", semArgs: []string{"--idkvp", "--ojson", "cat"}, semInput: "a=10,b=20,30,d=40,50\n", semJSON: true,
+			semWant: `{"a":"10","b":"20","3":"30","d":"40","5":"50"}`, why: "documented under --incr-key: without the option keyless DKVP fields are keyed by field number"})
+		add(flagCase{kind: "semantic", class: "doc-example", id: "--incr-key keyless-dkvp", semArgs: []string{"--incr-key", "--idkvp", "--ojson", "cat"}, semInput: "a=10,b=20,30,d=40,50\n", semJSON: true,
+			semWant: `{"a":"10","b":"20","1":"30","d":"40","2":"50"}`, why: "documented under --incr-key: with the option they are keyed by a running counter of keyless fields"})
+	}
+
+	// ---- bookkeeping: which spellings of the table have a case of their own
+	for _, c := range C {
+		switch c.class {
+		case "io-form", "sep-both", "alias", "alias-regex", "inert-legacy", "inert-outside-format", "mlrrc-line":
+			if len(c.lhs) > 0 {
+				inScope[c.lhs[0]] = true
+			}
+			if c.class == "mlrrc-line" {
+				inScope[c.id] = true
 			}
 		}
 	}
+	u.inScope = inScope
 	return C
 }
 
@@ -687,7 +764,12 @@ func (fr *flagRunner) run(args []string, rc *string, in corpusInput) vf.MlrResul
 		}()
 	}
 	text := in.text
+	// process-wide state that RunMlr does not reset: output colouring (-C/-M) and
+	// the once-per-name memo of the auto-unflatten warning
+	colorizer.SetColorization(colorizer.ColorizeOutputIfTTY)
+	mlrval.VerifC02ResetUnflattenWarnings()
 	r := vf.RunMlr(args, vf.MlrOpts{Stdin: &text})
+	colorizer.SetColorization(colorizer.ColorizeOutputIfTTY)
 	fr.w.Eval(1)
 	r.Stack = ""
 	if len(fr.cache) < 200000 {
@@ -696,14 +778,21 @@ func (fr *flagRunner) run(args []string, rc *string, in corpusInput) vf.MlrResul
 	return r
 }
 
+// sameOutcome: same exit status; on success also the same stdout and stderr.
+// When both sides fail, the text is not compared: which of several data errors
+// is reported first, and how much was written before it, depends on goroutine
+// timing (C17's subject), so only "both fail" is asserted.
 func sameOutcome(a, b vf.MlrResult) (bool, string) {
 	if a.Panic != "" || b.Panic != "" {
-		if a.Panic != b.Panic {
+		if (a.Panic != "") != (b.Panic != "") {
 			return false, "panic"
 		}
 	}
 	if a.Exit != b.Exit {
 		return false, "exit"
+	}
+	if a.Exit != 0 {
+		return true, ""
 	}
 	if a.Stdout != b.Stdout {
 		return false, "stdout"
@@ -738,6 +827,13 @@ func flagsWorker(w *vf.Worker) {
 		}
 		for _, f := range u.table {
 			w.Count("table-section:"+f.Section, int64(1+len(f.AltNames)))
+			for _, sp := range append([]string{f.Name}, f.AltNames...) {
+				if u.inScope[sp] {
+					w.Count("table-section-spellings-with-own-case:"+f.Section, 1)
+				} else {
+					w.AddSet("not-in-scope", f.Section+": "+sp)
+				}
+			}
 		}
 		w.Count("table-entries", int64(len(u.table)))
 		w.Count("table-spellings", int64(len(u.spellings)))
@@ -759,7 +855,7 @@ func flagsWorker(w *vf.Worker) {
 				r := fr.run(append(append([]string{}, c.lhs...), "cat"), nil, in)
 				fmt.Fprintf(h, "%d\x00%s\x00%s\x00%s\x01", r.Exit, r.Stdout, r.Stderr, r.Panic)
 			}
-			w.AddSet("guard", fmt.Sprintf("%s\t%x", c.id, h.Sum(nil)[:12]))
+			w.AddSet("guard", fmt.Sprintf("%s\t%s\t%x", c.class, c.id, h.Sum(nil)[:12]))
 		case "semantic":
 			in := corpusInput{"built", c.semInput}
 			r := fr.run(c.semArgs, nil, in)
@@ -811,15 +907,21 @@ func flagsWorker(w *vf.Worker) {
 						w.Count("io-form-name-rejected-undocumented:"+c.id, 1)
 						continue
 					}
-					ctxName := "plain"
-					if ci > 0 {
+					_ = ci
+					ctxName, ctxKind := "plain", "plain"
+					if len(cx[0]) > 0 || len(cx[1]) > 0 {
 						ctxName = strings.TrimSpace("pre=" + strings.Join(cx[0], " ") + " post=" + strings.Join(cx[1], " "))
+						ctxKind = "after:" + strings.Join(cx[0], " ")
+						if len(cx[0]) == 0 {
+							ctxKind = "before:" + strings.Join(cx[1], " ")
+						}
+						ctxKind = strings.NewReplacer(":", "=", "(", "", ")", "").Replace(ctxKind)
 					}
 					rcNote := ""
 					if c.mlrrc != nil {
 						rcNote = fmt.Sprintf("MLRRC file %q + ", *c.mlrrc)
 					}
-					w.Violation(fmt.Sprintf("%s[%s]:%s:ctx=%s:input=%s", c.class, what, c.id, ctxName, in.name),
+					w.Violation(fmt.Sprintf("%s[%s]:%s:%s:ctx=%s:input=%s", c.class, ctxKind, c.id, what, ctxName, in.name),
 						fmt.Sprintf("%s%s differs in %s from %s on input %s %s: got exit %d stdout %s stderr %s; expansion gives exit %d stdout %s stderr %s (%s)",
 							rcNote, cmdline(l), what, cmdline(r), in.name, brief(in.text), lr.Exit, brief(lr.Stdout), brief(lr.Stderr), rr.Exit, brief(rr.Stdout), brief(rr.Stderr), c.why),
 						map[string]any{"lhs": l, "rhs": r, "mlrrc": c.mlrrc, "stdin": in.text})
@@ -828,6 +930,9 @@ func flagsWorker(w *vf.Worker) {
 			if matters || strings.HasPrefix(c.class, "inert") {
 				w.Nontrivial(1)
 				w.AddSet("spellings", c.class+" "+c.id)
+				if c.class == "saver" || c.class == "mlrrc-profile" {
+					w.Sample(map[string]any{"part": "flags", "class": c.class, "spelling": strings.Join(c.lhs, " "), "expansion": strings.Join(c.rhs, " "), "derivation": c.why})
+				}
 			} else {
 				w.Count("trivial-on-corpus:"+c.class, 1)
 				w.AddSet("trivial", c.class+" "+c.id)
@@ -838,29 +943,56 @@ func flagsWorker(w *vf.Worker) {
 
 // finishFlags: the vacuity guard (corpus discriminates every pair of choices) and evidence.
 func finishFlags(c *vf.Ctx, res *vf.PoolResult) {
-	byHash := map[string][]string{}
-	n := 0
-	for _, e := range vf.SortedSet(res, "guard") {
-		i := strings.LastIndex(e, "\t")
-		byHash[e[i+1:]] = append(byHash[e[i+1:]], e[:i])
-		n++
+	type cfg struct {
+		name   string
+		target bool
 	}
-	c.Extra["guard_configurations"] = n
-	c.Extra["guard_distinct_output_vectors"] = len(byHash)
-	norm := func(s string) string { return strings.ReplaceAll(s, "--ijsonl", "--ijson") }
-	for _, cfgs := range byHash {
-		if len(cfgs) < 2 {
+	byHash := map[string][]cfg{}
+	n, nt := 0, 0
+	for _, e := range vf.SortedSet(res, "guard") {
+		p := strings.SplitN(e, "\t", 3)
+		if len(p) != 3 {
 			continue
 		}
-		for _, x := range cfgs[1:] {
-			if norm(x) != norm(cfgs[0]) {
-				c.Broken("vacuity guard: the corpus does not discriminate the choices {%s} and {%s}", cfgs[0], x)
+		byHash[p[2]] = append(byHash[p[2]], cfg{p[1], p[0] == "guard-target"})
+		n++
+		if p[0] == "guard-target" {
+			nt++
+		}
+	}
+	c.Extra["guard_configurations"] = n
+	c.Extra["guard_target_configurations"] = nt
+	c.Extra["guard_distinct_output_vectors"] = len(byHash)
+	// --ijsonl and --ijson select the same reader by design ("--ijsonl: Use JSON Lines format for input": the JSON reader accepts concatenated objects)
+	// the DCF and recutils writers differ only on multi-line and collection values, which a
+	// line-oriented reader without escapes cannot produce: for those inputs the two writers coincide
+	lineOriented := regexp.MustCompile(`^(--idkvp|--inidx.*|--ixtab|--ipprint.*|--imd|--icsvlite|--itsvlite|--iusv|--iasv) \| `)
+	norm := func(s string) string {
+		s = strings.ReplaceAll(s, "--ijsonl", "--ijson")
+		if lineOriented.MatchString(s) {
+			s = strings.ReplaceAll(s, "--orecutils", "--odcf")
+		}
+		return s
+	}
+	undiscriminated := 0
+	for _, cfgs := range byHash {
+		for _, x := range cfgs {
+			if !x.target {
+				continue
+			}
+			for _, y := range cfgs {
+				if norm(x.name) != norm(y.name) && (!y.target || x.name < y.name) {
+					undiscriminated++
+					c.Broken("vacuity guard: the corpus does not discriminate the choices {%s} and {%s}", x.name, y.name)
+				}
 			}
 		}
 	}
-	if n == 0 {
-		c.Broken("vacuity guard did not run")
+	c.Extra["guard_undiscriminated_pairs"] = undiscriminated
+	if n == 0 || nt == 0 {
+		c.Broken("vacuity guard did not run (%d configurations, %d targets)", n, nt)
 	}
+	c.Extra["flag_spellings_without_own_case"] = vf.SortedSet(res, "not-in-scope")
 	c.Extra["flag_notes"] = vf.SortedSet(res, "notes")
 	c.Extra["flag_duplicate_spellings"] = vf.SortedSet(res, "duplicate-spellings")
 	c.Extra["flag_spellings_trivial_on_corpus"] = vf.SortedSet(res, "trivial")
